@@ -483,7 +483,7 @@ def holdgrid(pairs=None, rnd=None, nrand=0):
     for lh, rh in pairs:
         h = min(lh, rh)
         for d in DIRS:
-            for pat in ("silent", "ka", "upd", "late", "writes", "slowka", "updnoh"):
+            for pat in ("silent", "ka", "upd", "late", "writes", "slowka", "updnoh", "burst"):
                 if pat != "silent" and d == "in" and (lh, rh) not in ((3, 90), (0, 90), (90, 0), (10, 10)):
                     continue
                 if pat == "updnoh" and h == 0:
@@ -511,6 +511,11 @@ def holdgrid(pairs=None, rnd=None, nrand=0):
                         else:
                             b.upd(c)
                     b.advu(H - 1).advu(1)
+                elif pat == "burst":
+                    # messages in quick succession: each one restarts the hold timer, the last one counts
+                    b.ka(c)
+                    b.advu(sec(1) // 2).upd(c).advu(sec(1) // 4).ka(c).advu(sec(1) // 10).upd(c)
+                    b.advu(H - 1).advu(1).adv(1)
                 elif pat == "slowka":
                     # the remote takes its time in OpenConfirm; the hold timer restarts at its KEEPALIVE
                     b.advu(H // 2)
@@ -934,6 +939,20 @@ def admission():
                 b.add("connect", conn=c, src=src, dst=dst)
                 b.upd(c0).adv(1)
                 out.append(b.tag("adm").build())
+    # a peer whose configured local address is the unspecified address: no connection's destination equals it
+    for la, remote, dst in (("0.0.0.0", "10.0.0.2", "10.0.0.1:179"), ("::", "2001:db8::2", "[2001:db8::1]:179")):
+        for passive in (False, True):
+            ps = [peer("pu", remote, localAddr=la, passive=passive), peer("pb", "10.0.0.3", remoteAS=65003, passive=True)]
+            b = Sb("adm-unspec-%s-%s" % (la.replace(":", "c"), "pas" if passive else "act"), ps)
+            b.start()
+            c0 = b.establish("pb", "in", rid="10.0.0.3")
+            c = b.newconn()
+            b.add("connect", conn=c, src=("[%s]:1000" % remote) if ":" in remote else remote + ":1000", dst=dst)
+            b.upd(c0).adv(1)
+            c2 = b.newconn()
+            b.add("connect", conn=c2, src="10.0.0.66:1000", dst="10.0.0.1:179")
+            b.upd(c0).adv(1).add("listPeers")
+            out.append(b.tag("adm").build())
     # peer state at arrival
     states = ["fresh", "out-connect", "out-openSent", "out-openConfirm", "out-established", "in-progress",
               "in-established", "helddown", "deleted"]
